@@ -122,3 +122,15 @@ fn c13_c_span_algebra() {
     kani::cover!(a1 < b0, "disjoint spans joined");
     kani::cover!(b0 < a0 && a1 < b1, "nested spans joined");
 }
+
+#[kani::proof]
+#[kani::unwind(5)]
+fn c13_a_line_column_any3() {
+    line_column::<3>(&SymStr::<3>::any());
+}
+
+#[kani::proof]
+#[kani::unwind(5)]
+fn c13_b_line_range_any3() {
+    line_range::<3>(&SymStr::<3>::any());
+}
